@@ -4,6 +4,7 @@
 set -eu
 ROOT="$(cd "$(dirname "${BASH_SOURCE[0]}")" && pwd)"
 export CARGO_NET_OFFLINE=true
+export CARGO_TARGET_DIR="$ROOT/build/target"
 mkdir -p "$ROOT/build" "$ROOT/evidence" "$ROOT/replays"
 ( cd "$ROOT/harness/svmc" && cargo build --release 2>&1 | tail -3 )
 "$ROOT/build/target/release/svmc" selftest
